@@ -11,6 +11,10 @@ CHECKS = {
    text='Exhaustive over the stated alphabet: every reachable abstract state of the store (4 keys incl. shared prefixes x {absent, empty, "x"}) is built on a fresh instance of each real driver, every mutator (Set/Delete/DeletePrefix/Update/BulkWrite with failing and succeeding callbacks) is applied and the full read battery (point reads, in-transaction reads, forward/reverse scans, all cursor programs) is compared with the model. Right level because the contract is a finite-state refinement of an ordered map.',
    note='memkv is the definition of the ordered map (snapshot views, atomic rollback). Empty keys and Next on an invalid iterator are outside the contract. Values limited to "" and "x".'),
 }
+CHECKS['C03'] = dict(engine='histmc', category='model_checking', section='3/C03',
+   technique='explicit-state breadth-first search over all mutation histories up to a depth, each history replayed on a fresh real kvgraph (over the memkv ordered-map model) and compared with a reference graph model after every step',
+   text='Every history of the ~50-operation alphabet (graph create/delete, single/batched/bulk adds incl. relabel, re-endpoint, invalid elements, deletes of present/absent ids, second graph for isolation) up to depth 5 (quick) / 7 (thorough) is executed on the real code; after every step the whole observation battery (lookups, listings, in/out neighbours and incident edges under 4 label filters, label scans and listings, graph list, return value, timestamps of every graph) must equal the model. States are deduplicated on model state + raw key dump + taint set, so leaked garbage keys are never merged away.',
+   note='Reference model gmodel (last write wins, cascading vertex delete, isolation). Store is memkv, bound to the real drivers by C10. A failing batch may apply nothing or exactly its valid elements. Behind a known defect the corrupted observation components are masked (taints) so that the search continues; evidence lists the known findings hit.')
 NA_REASON = 'check not built yet in this session (planned in DESIGN.md section 3); nothing is claimed for it'
 
 m = {
